@@ -2730,6 +2730,11 @@ class netcdf(PseudoNetCDFFile, NetCDFFile):
             return False
 
     def close(self):
+        # closing twice (explicitly, or again from __del__) must be a no-op:
+        # the C library recycles ids, so a second nc_close can hit another
+        # open dataset
+        if not self.isopen():
+            return
         try:
             return NetCDFFile.close(self)
         except Exception as e:
